@@ -1605,3 +1605,210 @@ class WOFF2TotalSize(Contract):
         return And(eq(r, a._end), eq(s % 4, 0), s >= raw, s - raw <= 3)
 
     ensures = [prop("flavor-data-from-the-padded-end-of-the-font-data", lambda a, old, r: WOFF2TotalSize._post(a, r))]
+
+
+@contract
+class WOFF2ReaderOffsets(Contract):
+    """WOFF2Reader.__init__ for a three-table directory with EVERY stored length, header length,
+    file size and decompressed size: table k starts, in the decompressed stream, where table
+    k - 1 ends (the first at 0; the stream is not padded); exactly totalCompressedSize bytes are
+    handed to the decompressor; the font is refused - TTLibError - exactly when the decompressed
+    size differs from the sum of the stored lengths or the header's length differs from the
+    file's size; nothing else escapes."""
+    module = "fontTools.ttLib.woff2"
+    qualname = "WOFF2Reader.__init__"
+    props = ("C04",)
+    level = "P"
+    only_raises = (TTLibError,)
+    assumptions = ("WOFF2DirectoryEntry.fromFile is a stub handing out the symbolic lengths (own contract: WOFF2DirectoryEntryRoundTrip)",
+                   "brotli.decompress is a stub returning bytes of an arbitrary (symbolic) length; BytesIO, WOFF2FlavorData, TTFont are recorders")
+
+    def rebind(self):
+        return dict(_dir_rebind(), __fmt__=True)
+
+    def args(self, S, variant):
+        self._S = S
+        lens = [S.int("length%d" % k, 0, 0xFFFFFFFF) for k in range(3)]
+        hdr_len = S.int("header.length", 0, 0xFFFFFFFF)
+        comp = S.int("totalCompressedSize", 0, 0xFFFFFFFF)
+        fsize = S.int("file.size", 0, 0xFFFFFFFF)
+        if S.concrete:
+            dec = bytes(min(S.int("decompressed.len", 0), 1 << 20))
+            dlen = len(dec)
+        else:
+            t = Tail("decompressed")
+            S.ctx.symbols["decompressed.len"] = t.n.t
+            S.ctx.assume_term(t.n.t >= 0)
+            dec, dlen = SymBytes([], t), t.n
+        return dict(_lens=lens, _hdr_len=hdr_len, _comp=comp, _fsize=fsize, _dec=dec, _dlen=dlen)
+
+    raises = {TTLibError: lambda a: Or(Not(eq(a._dlen, a._lens[0] + a._lens[1] + a._lens[2])), Not(eq(a._hdr_len, a._fsize)))}
+
+    def call(self, f, a):
+        S = self._S
+        st = __import__("struct") if S.concrete else std("struct")["struct"]
+        header = st.pack(">4s4sLHHLLHHLLLLL", b"wOF2", b"OTTO", a._hdr_len, 3, 0, 0, a._comp, 1, 0, 0, 0, 0, 0, 0)
+        log = []
+        tags = ["zzzz", "aaaa", "head"]
+
+        class _File:
+            pos = 0
+
+            def read(self, n=-1):
+                log.append(("read", n))
+                if len(log) == 1:
+                    return b"wOF2"
+                if _items(header) and len(log) == 3:
+                    return header
+                return "COMPRESSED"
+
+            def seek(self, off, whence=0):
+                log.append(("seek", off, whence))
+
+            def tell(self):
+                return a._fsize
+
+        class _Entry:
+            k = 0
+
+            def fromFile(self, file):
+                self.tag = tags[_Entry.k]
+                self.length = a._lens[_Entry.k]
+                _Entry.k += 1
+
+        class _brotli:
+            error = KeyError
+
+            @staticmethod
+            def decompress(data):
+                log.append(("decompress", data))
+                return a._dec
+        made = {}
+        patch = dict(WOFF2DirectoryEntry=_Entry, brotli=_brotli, haveBrotli=True,
+                     BytesIO=lambda data: made.setdefault("buffer", ("BytesIO", data)),
+                     WOFF2FlavorData=lambda reader: made.setdefault("flavor", ("flavor", reader)),
+                     TTFont=lambda **kw: made.setdefault("ttFont", ("TTFont", kw)))
+        missing = object()
+        saved = {k: getattr(self.mod, k, missing) for k in patch}
+        for k, v in patch.items():
+            setattr(self.mod, k, v)
+        r = self.mod.WOFF2Reader.__new__(self.mod.WOFF2Reader)
+        try:
+            f(r, _File())
+        finally:
+            for k, v in saved.items():
+                if v is missing:
+                    delattr(self.mod, k)
+                else:
+                    setattr(self.mod, k, v)
+        return r, log, made
+
+    @staticmethod
+    def _post(a, r):
+        rd, log, made = r
+        if list(rd.tables) != ["zzzz", "aaaa", "head"]:
+            return False
+        e = [rd.tables[t] for t in rd.tables]
+        reads = [x for x in log if x[0] == "read"]
+        if len(reads) != 3 or [x for x in log if x[0] == "decompress"] != [("decompress", "COMPRESSED")]:
+            return False
+        return And(eq(e[0].offset, 0), eq(e[1].offset, a._lens[0]), eq(e[2].offset, a._lens[0] + a._lens[1]),
+                   eq(reads[2][1], a._comp), made.get("buffer") is not None and made["buffer"][1] is a._dec and rd.transformBuffer is made["buffer"],
+                   rd.flavorData is made.get("flavor") and rd.ttFont is made.get("ttFont"))
+
+    ensures = [prop("tables-back-to-back-in-the-decompressed-stream", lambda a, old, r: WOFF2ReaderOffsets._post(a, r))]
+
+
+@contract
+class WOFF2TransformTablesLoop(Contract):
+    """WOFF2Writer._transformTables for tables glyf, hmtx, loca, name with EVERY stored length,
+    every choice of requested transforms and every outcome of the glyf / hmtx transform: tables
+    are written back to back from the current offset (each at the end of the previous one, in
+    directory order - the layout the reader assumes); a table is flagged transformed exactly
+    when its transform was requested AND produced data, and then that data is what is stored;
+    otherwise its own data is stored untouched and the flag is off; when the glyf transform
+    gives up, loca is stored untransformed too (a null-transformed glyf with a transformed,
+    empty loca cannot be reconstructed); the checksum adjustment is written once, after the
+    last table; the result is the buffer's content."""
+    module = "fontTools.ttLib.woff2"
+    qualname = "WOFF2Writer._transformTables"
+    props = ("C04",)
+    variants = tuple((req, g, h) for req in (("glyf", "loca"), ("glyf", "loca", "hmtx"), (), ("hmtx",)) for g in (True, False) for h in (True, False))
+    level = "PF"
+    assumptions = ("transformTable, the directory entry's saveData and writeMasterChecksum are recorders here (own contracts: WOFF2GlyfContainerRoundTrip, WOFF2HmtxTransformRoundTrip, WOFF2MasterChecksum)",)
+
+    def rebind(self):
+        return std("struct", "len", "bytes", "int")
+
+    def args(self, S, variant):
+        from collections import OrderedDict
+        req, g_ok, h_ok = variant
+        log = []
+        lens = {}
+
+        class _E:
+            def __init__(self, tag):
+                self.tag = tag
+                self.data = "raw-" + tag
+                self.transformed = "unset"
+
+            def saveData(self, buffer, data):
+                log.append(("save", self.tag, data, self.offset, self.transformed))
+                self.length = lens[self.tag]
+        tables = OrderedDict()
+        for tag in ("glyf", "hmtx", "loca", "name"):
+            tables[tag] = _E(tag)
+            lens[tag] = S.int(tag + ".length", 0, 0xFFFFFFFF)
+
+        class _FD:
+            pass
+        fd = _FD()
+        fd.transformedTables = set(req)
+
+        class _Buf:
+            def getvalue(self):
+                return "BUFFER"
+        cls = self.mod.WOFF2Writer
+
+        class _W(cls):
+            def transformTable(self, tag):
+                log.append(("transform", tag))
+                if tag == "glyf":
+                    return "T-glyf" if g_ok else None
+                if tag == "hmtx":
+                    return "T-hmtx" if h_ok else None
+                if tag == "loca":
+                    return b""
+                raise AssertionError("transform asked for " + tag)
+
+            def writeMasterChecksum(self):
+                log.append(("master",))
+        w = _W.__new__(_W)
+        w.tables, w.flavorData, w.transformBuffer = tables, fd, _Buf()
+        w.nextTableOffset = S.int("start", 0, 0xFFFFFFFF)
+        return dict(self=w, _req=req, _g=g_ok, _h=h_ok, _log=log, _lens=lens, _start=w.nextTableOffset)
+
+    @staticmethod
+    def _post(a, r):
+        log = a._log
+        if r != "BUFFER" or log[-1] != ("master",) or sum(1 for x in log if x == ("master",)) != 1:
+            return False
+        saves = [x for x in log if x[0] == "save"]
+        if [x[1] for x in saves] != ["glyf", "hmtx", "loca", "name"]:
+            return False
+        glyf_t = "glyf" in a._req and a._g
+        want = {"glyf": glyf_t, "hmtx": "hmtx" in a._req and a._h,
+                "loca": "loca" in a._req and ("glyf" not in a._req or a._g), "name": False}
+        out = {"glyf": "T-glyf", "hmtx": "T-hmtx", "loca": b""}
+        cs = []
+        off = a._start
+        for x in saves:
+            tag = x[1]
+            if x[4] is not want[tag] or x[2] != (out[tag] if want[tag] else "raw-" + tag) or a.self.tables[tag].transformed is not want[tag]:
+                return False
+            cs.append(eq(x[3], off))
+            off = off + a._lens[tag]
+        cs.append(eq(a.self.nextTableOffset, off))
+        return And(*cs)
+
+    ensures = [prop("back-to-back-and-flagged-exactly-when-transformed", lambda a, old, r: WOFF2TransformTablesLoop._post(a, r))]
